@@ -199,7 +199,7 @@ func TestC02Gating(t *testing.T) {
 
 func TestC03TrafficFollowsPods(t *testing.T) {
 	runSpec(t, e1Spec{check: "c03-traffic-follows-pods", props: []string{"C03"},
-		bias: sim.Bias{MaxActions: 150, ForceProvider: true, UserWeights: map[string]int{sim.UserApprove: 12, sim.UserJump: 2, sim.UserEditStep: 2, sim.UserScale: 1, sim.UserPause: 1, sim.UserResume: 2}},
+		bias: sim.Bias{MaxActions: 150, ForceProvider: true, SettlePct: 3, UserWeights: map[string]int{sim.UserApprove: 10, sim.UserJump: 5, sim.UserEditStep: 2, sim.UserScale: 1, sim.UserPause: 1, sim.UserResume: 2}},
 		nt: func(c e1Case, r *sim.Run, st *runStats) bool {
 			n := 0
 			for _, s := range c.S.Steps {
@@ -213,13 +213,13 @@ func TestC03TrafficFollowsPods(t *testing.T) {
 
 func TestC04NoVoid(t *testing.T) {
 	runSpec(t, e1Spec{check: "c04-no-void", props: []string{"C04"},
-		bias: sim.Bias{MaxActions: 150, ForceProvider: true, UserWeights: map[string]int{sim.UserApprove: 10, sim.UserRollback: 3, sim.UserRelease: 2, sim.UserDisable: 2, sim.UserDelete: 2, sim.UserEnable: 1, sim.UserScale: 1}},
+		bias: sim.Bias{MaxActions: 150, ForceProvider: true, SettlePct: 3, CancelBursts: 3, UserWeights: map[string]int{sim.UserApprove: 10, sim.UserRollback: 3, sim.UserRelease: 2, sim.UserDisable: 2, sim.UserDelete: 2, sim.UserEnable: 1, sim.UserScale: 1}},
 		nt:   func(c e1Case, r *sim.Run, st *runStats) bool { return st.maxStep >= 1 && !c.S.DisableCanarySvc }})
 }
 
 func TestC10RollbackFirst(t *testing.T) {
 	runSpec(t, e1Spec{check: "c10-cancel", props: []string{"C10"},
-		bias: sim.Bias{MaxActions: 150, ForceProvider: true, SettlePct: 6, UserWeights: map[string]int{sim.UserApprove: 8, sim.UserRollback: 5, sim.UserRelease: 4, sim.UserPause: 1, sim.UserResume: 1, sim.UserScale: 1}},
+		bias: sim.Bias{MaxActions: 150, ForceProvider: true, SettlePct: 4, CancelBursts: 4, UserWeights: map[string]int{sim.UserApprove: 8, sim.UserRollback: 5, sim.UserRelease: 4, sim.UserPause: 1, sim.UserResume: 1, sim.UserScale: 1}},
 		// non-trivial: a rollback / supersession hit a progressing release and one of the three
 		// oracles judged something (a hand-back write while armed with canary traffic, a rollback
 		// completion, a supersession restart)
@@ -246,8 +246,18 @@ func TestC10RollbackFirst(t *testing.T) {
 
 func TestC18Finalizers(t *testing.T) {
 	runSpec(t, e1Spec{check: "c18-rollout-finalizer", props: []string{"C18"},
-		bias: sim.Bias{MaxActions: 150, Restarts: true, UserWeights: map[string]int{sim.UserApprove: 10, sim.UserDelete: 6, sim.UserDisable: 1, sim.UserRollback: 1}},
-		nt:   func(c e1Case, r *sim.Run, st *runStats) bool { return st.maxStep >= 1 && st.userKinds[sim.UserDelete] }})
+		bias: sim.Bias{MaxActions: 150, Restarts: true, Faults: true, SettlePct: 3, UserWeights: map[string]int{sim.UserApprove: 10, sim.UserDelete: 6, sim.UserDisable: 1, sim.UserRollback: 2, sim.UserRelease: 1}},
+		nt:   func(c e1Case, r *sim.Run, st *runStats) bool { return st.maxStep >= 1 && st.userKinds[sim.UserDelete] },
+		cls: func(r *sim.Run) []string {
+			var out []string
+			if len(r.W.FaultLog) > 0 {
+				out = append(out, "fault-fired")
+			}
+			if tr := r.W.Track(); tr != nil && tr.BRFinalizerDrops > 0 {
+				out = append(out, "batchrelease-finalizer-drop-judged")
+			}
+			return out
+		}})
 }
 
 func TestC09Reachability(t *testing.T) {
